@@ -63,3 +63,36 @@ def sub_box(shape, rng, may_exceed=0.0):
     return off, cnt
 
 def idx(l): return lst([str(x) for x in l])
+
+
+def typed_op(rng, prefix, dt, shape, readonly=False, abuse=0.15, val=None):
+    """one typed transfer of a single value / of a vector the library sizes (ops da_one / dv_one): the count the library works
+    with is derived, not given — a single value is one element, a vector has the length of the one count entry above 1.
+    shape = the extent of the data set (the window for a view). Mostly well-formed, sometimes another rank / outside / empty."""
+    rank = len(shape)
+    off = [rng.randrange(0, max(1, n)) for n in shape]
+    q = rng.random()
+    if q < abuse / 3: off = off[:-1]
+    elif q < 2 * abuse / 3: off = off + [0]
+    elif q < abuse: off = []
+    elif q < abuse + 0.05 and off: off[rng.randrange(len(off))] += 7
+    how = rng.choice(['rd3', 'rd3', 'rd2', 'rd2', 'vec', 'vec'] + ([] if readonly else ['wr2', 'wr2']))
+    if dt == 'Bool' and how == 'vec': how = 'rd3'
+    if how == 'rd3':
+        cnt = rng.choice([[], [1] * rank, [1] * rank, [1] * (rank + 1), [1] * max(0, rank - 1), [2] + [1] * (rank - 1)])
+        return '%s_one rd3 %s %s %s' % (prefix, dt, idx(cnt), idx(off))
+    if how == 'rd2':
+        return '%s_one rd2 %s ~ %s' % (prefix, dt, idx(off))
+    if how == 'wr2':
+        return '%s_one wr2 %s %s %s' % (prefix, dt, val() if val else small_value(dt, rng), idx(off))
+    # a vector along one axis (row, column, …), sometimes with two long axes (refused), an empty count, a zero entry
+    cnt = [1] * rank
+    ax = rng.randrange(rank)
+    cnt[ax] = rng.randint(1, max(1, shape[ax] - (off[ax] if ax < len(off) else 0)))
+    q = rng.random()
+    if q < 0.08 and rank > 1: cnt[(ax + 1) % rank] = 2
+    elif q < 0.12: cnt = []
+    elif q < 0.16: cnt[rng.randrange(rank)] = 0
+    elif q < 0.2: cnt = cnt + [1]
+    elif q < 0.24: cnt[ax] += 5
+    return '%s_one vec %s %s %s' % (prefix, dt, idx(cnt), idx(off))
